@@ -116,6 +116,19 @@ def _chem_info(chemicals):
     return v
 
 
+def _class_level_dicts():
+    """Every mutable dict that lives on an Indexer class (process-global state next to MaterialIndexer._index_caches, which the shared
+    fixture already resets): owned here - cleared before every execution and part of `canon`."""
+    import thermosteam.indexer as ix
+    out = {}
+    for n, c in vars(ix).items():
+        if isinstance(c, type) and issubclass(c, ix.Indexer):
+            for k, v in vars(c).items():
+                if isinstance(v, dict) and not k.startswith('__') and k != '_index_caches':
+                    out[f'{n}.{k}'] = v
+    return out
+
+
 class Truth:
     """Primary state of a stream read without touching any cache."""
     __slots__ = ('multi', 'phases', 'rows', 'T', 'P', 'chems', 'IDs', 'MW')
@@ -178,7 +191,9 @@ class C11(System):
     # ---- engine plumbing ----------------------------------------------------------------------
     def warm(self):
         fx.tmo(); fx.thermo('A'); fx.custom_thermo(A2_IDS)
-    def reset_globals(self): fx.reset_globals()
+    def reset_globals(self):
+        fx.reset_globals()
+        for d in _class_level_dicts().values(): d.clear()
     def depth(self, tier): return self._dq if tier == 'quick' else self._dt
     def time_cap(self, tier): return self._tq if tier == 'quick' else self._tt
     def describe(self, tier):
@@ -261,6 +276,7 @@ class C11(System):
                 ic = (bound is imol._index_cache, tuple(sorted(repr(k) for k in imol._index_cache)))
             cc = tuple(sorted(repr(k) for k in x.chemicals._index_cache))
             out.append((d, dcts, tuple(views), ic, cc))
+        out.append(tuple((n, tuple(sorted(repr(k) for k in d))) for n, d in sorted(_class_level_dicts().items())))
         return tuple(out)
 
     # ---- state oracle -------------------------------------------------------------------------------
@@ -433,6 +449,11 @@ class C11(System):
         if isinstance(s, tmo.MultiStream) and tuple(s._imol._phases) != tuple(o._imol._phases): return False
         return True
 
+    def _view_assignable(self, st):
+        """the partner's view object can be written into s: both single-phase, same package"""
+        tmo = fx.tmo()
+        return (not isinstance(st.s, tmo.MultiStream)) and (not isinstance(st.o, tmo.MultiStream)) and st.s.chemicals is st.o.chemicals
+
     def _targets(self, x):
         """(key for item writes) — one entry that is non-zero at the start, one that is zero."""
         tmo = fx.tmo()
@@ -472,6 +493,16 @@ class C11(System):
                     acts.append(('reset_flow', u, None, other_phase)); acts.append(('reset_flow', u, 5.0, other_phase))
             for dim in ('mol', 'mass', 'vol'):
                 acts.append(('wall', dim, (0.375, 0.0, 2.5)))
+            if self._view_assignable(st):
+                for dim in ('mol', 'mass', 'vol'):
+                    for via in ('attr', 'slice', 'idx'):
+                        acts.append(('wview', dim, via))
+            # indexer-level get_data / set_data: a unit used validly on its own view, and the same unit on the views of the other dimensions
+            for view in ('mol', 'mass', 'vol'):
+                for u in HIST_UNITS:
+                    if UNITS[u][0] == view: acts.append(('idx_data', view, u))
+                    else:
+                        acts.append(('baddim_idx', 'get_data', view, u)); acts.append(('baddim_idx', 'set_data', view, u))
             # one structural step so that depth 2 applies every unit to a non-initial state
             acts += [('T', 350.0), ('P', 5e5), ('empty',)]
             if multi: acts.append(('to_single', 'l'))
@@ -487,6 +518,8 @@ class C11(System):
         acts.append(('set_flow', 2.0, 'L/min', p1, n1))
         acts.append(('set_total', 5.0, 'gal/min'))
         acts.append(('F', 'F_mass', 100.0))
+        if self._view_assignable(st):
+            acts += [('wview', 'vol', 'attr'), ('wview', 'vol', 'idx'), ('wview', 'mass', 'attr')]
         acts += [('T', 350.0), ('T', 298.15), ('P', 5e5)]
         if multi:
             acts.append(('to_single', 'l'))
@@ -581,6 +614,12 @@ class C11(System):
                             match=dict(op=a[0], dim=a[1] if a[0] == 'w' else UNITS[a[2]][0], kind='multi' if tr.multi else 'single'),
                             residual=max(resid(x_, y_) for x_, y_ in zip(tr.rows, exp)) if tr.phases == before.phases else None)
         return tr
+
+    def _flows_digest(self, st):
+        return tuple((t.phases, tuple(tuple(r.tolist()) for r in t.rows), t.T, t.P) for t in (Truth(st.s), Truth(st.o)))
+
+    def _flows_digest_of(self, bs, bo):
+        return tuple((t.phases, tuple(tuple(r.tolist()) for r in t.rows), t.T, t.P) for t in (bs, bo))
 
     def _bystander(self, st, a, who, before, shared, acted_after=None):
         x = st.s if who == 's' else st.o
@@ -742,6 +781,63 @@ class C11(System):
                                 match=dict(op=op, dim=dim, kind=kind), residual=max(resid(p_, q_) for p_, q_ in zip(tr.rows, exp)) if tr.phases == bs.phases else None)
             self._bystander(st, a, 'o', bo, shared, tr)
             return 'ok'
+        if op == 'wview':
+            # the VALUE written is the partner's own view object (its factors belong to the partner's T, P and phase)
+            _, dim, via = a
+            vals = [m * f_ for m, f_ in zip(bo.rows, bo.factor_rows(dim))][0]      # what the partner's view reads, in the unit of dim
+            src = getattr(o, dim)
+            if via == 'attr': setattr(s, dim, src)
+            elif via == 'slice': getattr(s, dim)[:] = src
+            else:
+                ind = s.imol if dim == 'mol' else (s.imass if dim == 'mass' else s.ivol)
+                ind[bs.IDs] = src
+            tr = Truth(s)
+            exp = [vals / bs.factor_rows(dim)[0]]
+            if tr.phases != bs.phases or not all(close(p_, q_) for p_, q_ in zip(tr.rows, exp)):
+                raise Violation('write-effect', f'{a!r}: wrote the partner\'s {dim} view {vals.tolist()} (partner {bo.phases} T={bo.T} P={bo.P}) into s ({bs.phases} T={bs.T} P={bs.P}); '
+                                f'molar flows became {[r.tolist() for r in tr.rows]}, expected {[e.tolist() for e in exp]}',
+                                match=dict(op=op, dim=dim, via=via, kind=kind, shared_data=bool(shared)), residual=max(resid(p_, q_) for p_, q_ in zip(tr.rows, exp)) if tr.phases == bs.phases else None)
+            got = np.array(getattr(s, dim).to_array(), float)
+            if not close(got, vals, 1e-11):
+                raise Violation('write-readback', f'{a!r}: wrote {vals.tolist()}, the {dim} view of s reads {got.tolist()}', match=dict(op=op, dim=dim, via=via, kind=kind),
+                                residual=resid(got, vals))
+            self._bystander(st, a, 'o', bo, shared, tr)
+            return 'ok'
+        if op == 'idx_data':
+            _, view, u = a
+            dim, f = UNITS[u]
+            ind = s.imol if view == 'mol' else (s.imass if view == 'mass' else s.ivol)
+            nm = 'Water'
+            key = nm if not bs.multi else (bs.phases[-1], nm)
+            ri = 0 if not bs.multi else len(bs.phases) - 1
+            ci = bs.IDs.index(nm)
+            fac = bs.factor_rows(view)[ri][ci]
+            got = float(ind.get_data(u, key)); e = float(bs.rows[ri][ci] * fac * f)
+            if not close(got, e, 1e-11):
+                raise Violation('unit-read', f's.i{view}.get_data({u!r}, {key!r}) = {got!r}, expected {e!r}', match=dict(dim=view, kind=kind, diag='indexer'),
+                                detail=dict(who='s'), residual=resid(got, e))
+            ind.set_data(2.0, u, key)
+            self._expect_entry(st, bs, None if not bs.multi else bs.phases[-1], nm, 2.0 / f / fac, ('set_flow', 2.0, u, None, nm))
+            return 'ok'
+        if op == 'baddim_idx':
+            _, fn, view, u = a
+            import pint
+            before = self.canon(st)
+            ind = s.imol if view == 'mol' else (s.imass if view == 'mass' else s.ivol)
+            nm = 'Water'
+            key = nm if not bs.multi else (bs.phases[-1], nm)
+            try:
+                if fn == 'get_data': ind.get_data(u, key)
+                else: ind.set_data(1.0, u, key)
+            except (tmo.exceptions.DimensionError, pint.errors.DimensionalityError) as e:
+                if self._flows_digest(st) != self._flows_digest_of(bs, bo):
+                    raise Violation('dimension', f'i{view}.{fn}(…, {u!r}) raised {type(e).__name__} but changed the flows', match=dict(fn=fn, unit=u, view=view, changed=True))
+                return type(e).__name__
+            except Exception as e:
+                raise Violation('dimension', f'i{view}.{fn}(…, {u!r}) raised {type(e).__name__} instead of a dimensionality error: {e}',
+                                match=dict(fn=fn, unit=u, view=view, exc=type(e).__name__))
+            raise Violation('dimension', f'i{view}.{fn}(…, {u!r}) accepted a unit of the wrong dimension ({UNITS[u][0]} unit on the {view} view)',
+                            match=dict(fn=fn, unit=u, view=view, accepted=True))
         if op == 'baddim':
             _, fn, u = a
             before = self.canon(st)
